@@ -144,10 +144,20 @@ def gen_wfd(rng):
     return {"fam": "wfd", "init": [rng.choice([1, 2, 3]) for _ in range(3)], "ops": ops}
 
 
+def gen_comp_pull(rng):
+    """round 7: the pull of a NON-terminal child (the macro runs in part: upstream children only) directly followed by a
+    full run on unchanged macro inputs -- whatever the partial run remembers must not serve the full run"""
+    ops = [["run"]] if rng.random() < 0.5 else []
+    ops += [["assign", rng.choice([0, 2, 3, 5])], ["pull", rng.choice(["a", "a", "c", "b"])], ["run"]]
+    for _ in range(rng.randint(0, 5)):
+        ops.append(rng.choice([["run"], ["assign", rng.choice([0, 1, 2, 7])], ["pull", "a"], ["pull", "c"], ["clear"], ["run-kw", rng.choice([1, 2])]]))
+    return {"fam": "comp", "x": rng.choice([1, 2]), "ops": ops}
+
+
 def generate(ctx):
     rng = ctx.rng
     return ([gen_leaf(rng) for _ in range(ctx.n(500, 6000))] + [gen_comp(rng) for _ in range(ctx.n(200, 2500))] +
-            [gen_wfd(rng) for _ in range(ctx.n(150, 2000))])
+            [gen_wfd(rng) for _ in range(ctx.n(150, 2000))] + [gen_comp_pull(rng) for _ in range(ctx.n(60, 600))])
 
 
 def corpus(ctx):
